@@ -14,6 +14,7 @@ import ChibiVerif.Spec.C04Spec
 import ChibiVerif.Model.Frame
 import ChibiVerif.Model.Alloca
 import ChibiVerif.Props.C04
+import ChibiVerif.Lemmas.C04Repair
 
 namespace ChibiVerif.Findings.C04
 open ChibiVerif.BitField ChibiVerif.Spec.C04 ChibiVerif.Frame ChibiVerif.Alloca ChibiVerif.Gen.C04
@@ -69,6 +70,18 @@ theorem C04_finding_overaligned_sharp (body params : List Var) (hwf : ∀ v ∈ 
 
 /-- the witness frame is an instance -/
 example : (⟨-32, 1, 32, false⟩ : Slot) ∈ frameSlots [⟨1, 32, false, false⟩, ⟨8, 8, false, false⟩] [] := by decide
+
+/-- **what a small repair would give** (sketch; /repo is unchanged, so the finding stands): reserve `size + (A - 16)` bytes
+    for an object with alignment `A = 2^k > 16` in a 16-aligned slot at `x` and address it as `(x + (A - 16)) & -A`
+    (`lea off(%rbp), reg; add $(A-16), reg; and $-A, reg` at the four places that take a local's address).  Then the object
+    is `A`-aligned for every psABI-conforming %rbp and stays inside its slot: -/
+theorem C04_repair_overaligned_arith (x A : Int) (k : Nat) (hk : 4 ≤ k) (hA : A = 2 ^ k) (hx : x % 16 = 0) (size : Int) :
+    roundDown (x + (A - 16)) A % A = 0 ∧ x ≤ roundDown (x + (A - 16)) A ∧
+    roundDown (x + (A - 16)) A + size ≤ x + (size + (A - 16)) :=
+  repair_arith x A k hk hA hx size
+
+/-- e.g. `_Alignas(64)` in a slot at 4112 (= 16 mod 64): the object goes to 4160 -/
+example : roundDown (4112 + (64 - 16)) 64 = 4160 := by decide
 
 /-! ### limit of alloca: the bound `n < 2^32 - 15` of `C04_alloca_size` is sharp -/
 theorem C04_limit_alloca_truncates : allocaSize (BitVec.ofNat 64 (2 ^ 32 - 15)) = 0 ∧ allocaSize (BitVec.ofNat 64 (2 ^ 32 + 1)) = 16 := by
